@@ -168,6 +168,59 @@ pub fn any_chars6() -> [char; 6] {
 }
 
 // ---------------------------------------------------------------------------
+// P0: positions advance by the SOURCE length of each character (the length
+// recorded in `DecodedChar`, which differs from the UTF-8 length for UTF-16 or
+// Latin-1 sources), for every primitive that consumes input.
+
+#[cfg(kani)]
+#[kani::proof]
+#[kani::unwind(5)]
+fn p0_position_advances_by_source_length() {
+	let c: [char; 3] = [kani::any(), kani::any(), kani::any()];
+	let l: [usize; 3] = [kani::any(), kani::any(), kani::any()];
+	kani::assume(l[0] >= 1 && l[0] <= 4 && l[1] >= 1 && l[1] <= 4 && l[2] >= 1 && l[2] <= 4);
+	let src = [DecodedChar::new(c[0], l[0]), DecodedChar::new(c[1], l[1]), DecodedChar::new(c[2], l[2])];
+	let base = any_base();
+	let mut p: Parser<_, Infallible> = Parser::new(src.iter().map(|d| Ok(*d)));
+	p.position = base;
+	// peek does not move
+	let k = p.peek_char();
+	assert!(matches!(k, Ok(Some(x)) if x == c[0]) && p.position == base, "C05:peek-does-not-advance");
+	// next_char reports the position BEFORE the character and advances by its source length
+	let r = p.next_char();
+	assert!(matches!(r, Ok((q, Some(x))) if q == base && x == c[0]), "C07:next-char-reports-the-pre-consumption-position");
+	assert!(p.position == base + l[0], "C05:position-advances-by-the-source-length-of-the-character");
+	// whitespace skipping advances by source lengths as well and leaves the first non-blank pending
+	let r = p.skip_whitespaces();
+	assert!(r.is_ok(), "C01:skip-whitespaces-total");
+	let mut want = base + l[0];
+	let mut left = 1;
+	if ws(c[1]) {
+		want += l[1];
+		left = 2;
+		if ws(c[2]) {
+			want += l[2];
+			left = 3;
+		}
+	}
+	assert!(p.position == want, "C05:position-advances-by-the-source-length-of-the-character");
+	let i = p.begin_fragment();
+	let r = p.next_char();
+	if left < 3 {
+		assert!(matches!(r, Ok((q, Some(x))) if q == want && x == c[left]), "C07:next-char-reports-the-pre-consumption-position");
+		assert!(p.position == want + l[left], "C05:position-advances-by-the-source-length-of-the-character");
+	} else {
+		assert!(matches!(r, Ok((q, None)) if q == want) && p.position == want, "C07:end-of-input-reported-at-the-input-length");
+	}
+	p.end_fragment(i);
+	let e = p.code_map.as_slice()[i];
+	assert!(e.span.start() == want && e.span.end() == p.position && e.volume == 1, "C05:fragment-span-in-source-offsets");
+	kani::cover!(left == 3);
+	kani::cover!(left == 1 && l[1] != crate::verif::util::utf8_len(c[1]));
+	core::mem::forget(p);
+}
+
+// ---------------------------------------------------------------------------
 // L1: whitespace and follow sets
 
 #[cfg(kani)]
@@ -1159,7 +1212,7 @@ fn ws_or_not(buf: &mut [char; 12], len: &mut usize) {
 /// UTF-8 length, optional whitespace at both places, symbolic terminator.
 #[cfg(kani)]
 #[kani::proof]
-#[kani::unwind(4)]
+#[kani::unwind(5)]
 #[kani::stub(smallvec::SmallVec::try_grow, crate::verif::util::no_grow)]
 fn s1_object_start_shaped() {
 	let mut buf: [char; 12] = ['{'; 12];
